@@ -658,7 +658,8 @@ impl<'t> Exec<'t> {
                 return;
             }
             Kind::Convert => {
-                self.rider_convert(h, true);
+                let all = self.mask.c12;
+                self.rider_convert(h, all);
                 return;
             }
             Kind::Counts => {
